@@ -103,12 +103,45 @@ def ord_tag_lemma(side):
     return body
 
 
+def collect_lemma(L):
+    """`collect` with n in 0..=2 on a stack with exactly 2 visible cells above an arbitrary hidden part: the new vector
+    holds exactly the top n visible cells in stack order, everything below them stays, hidden cells are never taken"""
+    from e2.lemma import word_map, word_call
+    x0, x1, n = L.cell("x0"), L.cell("x1"), L.cell("n")
+    pre = Pre(L, stack=[x0, x1, n])
+    nv = int_payload("n")
+    pc = pre.pc + [pre.ds_len.t == pre.n0, n.discr == CELL_VARIANTS.index("Int"), nv >= 0, nv <= 3]
+    L.field(pre.S, "State", "stack_limit").variant = "None"
+    fn, args = word_call(L, word_map(L.ex, "load_core")["collect"][0], pre.xs)
+    outs = L.run(fn, args, pc, pre.roots())
+    L.witness(outs, lambda o: o.kind == "return" and o.value.variant == "Ok", "collect succeeds")
+    cex = lambda m: {"lines": ["eval 7 8", "eval #( 1 2 2 collect #)", "stack"], "expect": [("no_panic",), ("last_result_in", ["ok"]), ("depth", 3)]}
+    for o in outs:
+        if o.kind != "return":
+            L.fail(o, "collect must not panic", cex=cex)
+            continue
+        S1 = final_state(L, o)
+        ds1 = L.field(S1, "State", "data_stack")
+        if o.value.variant != "Ok":
+            L.require(o, nv == 3, "collect fails only when more cells are asked for than are visible", cex=cex)
+            continue
+        for k, taken in ((0, []), (1, [x1]), (2, [x0, x1])):
+            if not L.feasible(o, nv == k):
+                continue
+            rest = [x0, x1][:2 - k]
+            exp_vec = Enum("cell::Cell", "Vector", Struct("cell::Cell::Vector", {0: Vec("cell::Cell", None, list(taken))}))
+            L.require(o, veq(L.ex, ds1, Vec(ds1.elem_ty, pre.ds.prefix, rest + [exp_vec])), "collect of %d: the vector holds the top %d visible cells, the rest of the stack (hidden part included) is untouched" % (k, k),
+                      extra_pc=[nv == k], cex=cex)
+
+
 def run(L, tier, only=None):
     L.ex.path_budget = 4000
     if not only or "ord" in only:
         L.lemma("C12 Ord/Eq consistency of map keys", ord_eq_lemma)
     if not only or "antisym" in only:
         L.lemma("C12 Ord antisymmetry", antisym_lemma)
+    if not only or "collect" in only:
+        L.lemma("C12 collect takes exactly the visible cells asked for", collect_lemma)
     for side in (0, 1):
         if not only or "tags" in only:
             L.lemma("C12 order and equality see through tags (operand %d)" % side, ord_tag_lemma(side))
